@@ -107,7 +107,7 @@ class Facts:
         """a root MIR body together with its (nested) closures"""
         root_path = body["parent"] if body["dk"] == "Closure" else body["path"]
         fam = [self.mir_by_path[(body["crate"], root_path)]] if (body["crate"], root_path) in self.mir_by_path else []
-        fam += self.closures_of.get((body["crate"], root_path), [])
+        fam += [c for c in self.closures_of.get((body["crate"], root_path), []) if not c.get("analysed_inlined")]
         return fam
 
     def hir_fn(self, name, crate=VISITOR_CRATE):
